@@ -50,7 +50,7 @@ PROPS['C20'] = dict(
 )
 PROPS['C09'] = dict(
     title='bounded recursion',
-    units=['depth', 'wrap', 'rtmu'],
+    units=['depth', 'wrap', 'rtmu', 'arms'],
     shims=[],
     design='DESIGN.md 3/C09',
     technique='contract-based deductive verification (Verus) of the mechanically sliced recursion skeleton (guards + recursive calls with real argument expressions) of the real functions, with a termination measure',
@@ -98,7 +98,7 @@ PROPS['C05'] = dict(
     design='DESIGN.md 3/C05',
     technique='contract-based deductive verification (Verus) of the verbatim TextMacroUsage arm and of the actual/formal binding block of resolve_text_macro_usage',
     level_text='Deductive proof that the usage arm pushes the expansion with the origin of the definition, adopts the table that comes back, propagates DefineNotFound/DefineNoArgs/DefineArgNotFound unchanged, suppresses the usage subtree and copies the trailing white space with its own range; that the binding block maps the i-th formal to the i-th actual, its default when omitted, and reports the three named errors; that split_text equals a reference tokeniser derived from 22.5.1 (identifier/other runs, string literals intact, one-line comments dropped, `\" closes a run); and that nested preprocessing receives the live define table.',
-    level_note=ARMS_NOTE + ' Partial: the `replace` chain (`` , `\\`\", `\", line continuations) works on uninterpreted string functions and argument lexing lives in the parser; split_text itself is proved equal to a reference tokeniser.',
+    level_note=ARMS_NOTE + ' Partial: the `replace` chain (`` , `\\`\", `\", line continuations) works on uninterpreted string functions and argument lexing lives in the parser and is only covered by a BOUNDED stand-in (every well-nested actual-argument text up to 5 bytes, 7 in the thorough tier, through the real preprocess_str; labelled bounded, not counted as proved); split_text itself is proved equal to a reference tokeniser.',
     not_covered=['the replace chain (``, escaped quotes, line continuations): str::replace is an uninterpreted function here', 'argument lexing in the parser', 'that the recursive re-preprocessing yields the fully expanded text'],
 )
 PROPS['C06'] = dict(
@@ -203,6 +203,7 @@ PROPS['C08'] = dict(
 KANI = dict(module='vx.kanieng', tier='thorough')
 PROPS['C03']['engines'] = [KANI]
 PROPS['C18']['engines'] = [REPLAY]
+PROPS['C05']['engines'] = [dict(module='vx.boundeng')]
 PROPS['C04']['engines'] = [dict(module='gvc.engine', args=dict(analyses=('frame',))), REPLAY]
 PROPS['C06']['engines'] = [dict(module='gvc.engine', args=dict(analyses=('pptotal', 'faithful'))), dict(module='vx.boundeng'), REPLAY]
 
